@@ -376,7 +376,9 @@ func processFlavorOptions(s *slip.Scope, nf *Flavor, options slip.List, depth in
 		case ":required-flavors":
 			nf.required = valsStringList(s, vals, depth)
 		case ":required-init-keywords":
-			nf.requiredKeywords = valsStringList(s, vals, depth)
+			for _, k := range valsStringList(s, vals, depth) {
+				nf.addRequiredKeyword(k)
+			}
 		case ":required-instance-variables":
 			nf.requiredVars = valsStringList(s, vals, depth)
 		case ":required-methods":
